@@ -33,7 +33,7 @@ func conf() *ipa.IPAConfig {
 	confOnce.Do(func() {
 		c, err := ipa.NewIPASettings()
 		if err != nil {
-			panic("NewIPASettings: " + err.Error())
+			panic(core.ImplFault{API: "ipa.NewIPASettings", Input: "()", Got: "error: " + err.Error()})
 		}
 		confVal = c
 	})
